@@ -348,7 +348,7 @@ def mkLoaded (f : File) : Loaded :=
 
 /-- judge:wf — does the loaded file meet the layout hypothesis of C01.marks_legal -/
 def judgeWf (f : File) : String :=
-  if wfFileFunc f && linesInFuncOK f then "ok" else "skip wf:" ++ ",".intercalate (wfReasons f)
+  if wfFileFunc f && linesInFuncOK f && boundariesInFuncOK f then "ok" else "skip wf:" ++ ",".intercalate (wfReasons f)
 
 /-- judge:wflegal <gran> <ranges> — run-time cross-check of C01.marks_legal on the model's own
     answer: on a well-formed file every multi-line position is a statement boundary -/
